@@ -96,8 +96,10 @@ theorem stream_single_length (keep : Bool) (e : Entry) (hs : single e = true) :
 /-- all event groups of the entries applied so far -/
 def groups (s : St) : List Group := s.log.flatMap (streamEntryWith s.keepIdx)
 
-/-- delivered to the endpoint, or announced as delivered by another node's HWM broadcast -/
-def DoneG (s : St) (g : Group) : Prop := (∃ d ∈ s.delivered, g ∈ d.2) ∨ g.idx ≤ s.maxIn
+/-- delivered to the endpoint (or given up on after a finite retry limit was exhausted), or
+announced as delivered by another node's HWM broadcast -/
+def DoneG (s : St) (g : Group) : Prop :=
+  ((∃ d ∈ s.delivered, g ∈ d.2) ∨ (∃ d ∈ s.dropped, g ∈ d.2)) ∨ g.idx ≤ s.maxIn
 
 /-- a FIFO item the leader loop will still emit and not skip -/
 def Live (s : St) (it : Nat × Batch) : Prop := s.fifo.nextFrom ≤ it.1 ∧ s.hwm < it.1
